@@ -38,11 +38,15 @@ def main():
         subprocess.run(["git", "-C", wt, "apply", patch], check=True)
         suite = None
         if "--suite" in sys.argv:
-            p = subprocess.run(
-                ["/venv/bin/python", "-m", "pytest", "tests", "-q", "-x", "-p", "no:cacheprovider", "-k", AREA.get(name, name)],
-                cwd=wt, capture_output=True, text=True,
-            )
-            suite = "green" if p.returncode == 0 else "red"
+            try:
+                p = subprocess.run(
+                    ["/venv/bin/python", "-m", "pytest", "tests", "-q", "-x", "-p", "no:cacheprovider", "-k", AREA.get(name, name)],
+                    cwd=wt, capture_output=True, text=True, timeout=900,
+                )
+                failed = re.findall(r"^(?:FAILED|ERROR) (\S+)", p.stdout, flags=re.M)
+                suite = {0: "green", 5: "no tests selected"}.get(p.returncode, f"red rc={p.returncode} {failed[:2]}")
+            except subprocess.TimeoutExpired:
+                suite = "hangs (>900 s): a repository test spins at a frozen clock"
         t0 = time.monotonic()
         env = dict(os.environ, HS_REPO=wt)
         p = subprocess.run(
@@ -59,6 +63,7 @@ def main():
                 pass
         results.append(
             {
+                "repo_head": subprocess.run(["git", "-C", wt, "rev-parse", "--short", "HEAD"], capture_output=True, text=True).stdout.strip(),
                 "patch": os.path.basename(patch),
                 "caught": p.returncode == 1 and bool(keys),
                 "exit": p.returncode,
